@@ -6,6 +6,7 @@ package query
 import (
 	"errors"
 	"fmt"
+	"regexp"
 	"strings"
 
 	"pgregory.net/rapid"
@@ -14,6 +15,7 @@ import (
 )
 
 type caseT struct {
+	extraSels bool // the last Lookup had sels beyond the required columns
 	d     *dbT
 	tq    *topQ
 	text  string
@@ -135,6 +137,21 @@ func (c *caseT) mismatch(what string, x *execT, got [][]string) string {
 	return sb.String()
 }
 
+var joinLookupSelectRe = regexp.MustCompile(`(?s)(Times|Join|LeftJoin)\)\.Select.*(Join|LeftJoin)\)\.Lookup`)
+var tableLookupNoSelsRe = regexp.MustCompile(`\(\*Table\)\.Lookup\([^\n]*\{0x0, 0x0, 0x0\}\)`)
+
+var disjointLookupRe = regexp.MustCompile(`union-disjoint\([a-z0-9_]*\)( |\)|$)`)
+
+// usesEmptyKeyTable: the query reads a table with the empty key.
+func (c *caseT) usesEmptyKeyTable() bool {
+	for name := range c.tq.q.tables() {
+		if hasSet(c.d.table(name).keys, []string{}) {
+			return true
+		}
+	}
+	return false
+}
+
 // usesUniqueIndex: the query reads a table that has an "index unique" whose
 // columns do not contain a key.
 func (c *caseT) usesUniqueIndex() bool {
@@ -157,9 +174,21 @@ func (c *caseT) usesUniqueIndex() bool {
 
 // knownCrash classifies an engine panic: true if it is a listed known
 // finding (then the case is excluded and counted).
-func (c *caseT) knownCrash(rec *ev.Rec, prop string, err *engineErr) bool {
+func (c *caseT) knownCrash(rec *ev.Rec, prop string, err *engineErr, strat string) bool {
 	key := ""
 	switch {
+	case strings.Contains(err.stack, "Union).getLookup") && strings.Contains(err.stack, "Compatible).source2Has") &&
+		disjointLookupRe.MatchString(strat):
+		key = "union-disjoint-lookup-probe"
+	case err.Error() == "ASSERT FAILED" && strings.Contains(err.stack, "query.selEnd") &&
+		strings.Contains(err.stack, "Union).Select") && c.usesEmptyKeyTable():
+		key = "union-select-emptykey-source"
+	case (strings.HasPrefix(err.Error(), "Sels.Get can't find") || err.Error() == "ASSERT FAILED" || err.Error() == "selOrg not full") &&
+		c.extraSels && joinLookupSelectRe.MatchString(err.stack):
+		key = "join-lookup-fallback-extra-sels"
+	case (strings.HasPrefix(err.Error(), "Sels.Get can't find") || err.Error() == "selOrg not full") &&
+		strings.Contains(err.stack, "Times).Lookup") && tableLookupNoSelsRe.MatchString(err.stack):
+		key = "times-lookup-empty-sels"
 	case err.Error() == "selOrg not full" && c.usesUniqueIndex():
 		key = "lookup-unique-index-empty"
 	case err.Error() == "ASSERT FAILED" && strings.Contains(err.stack, "ProjectNone).hasRow"):
